@@ -227,6 +227,9 @@ def slice_to_vec(M, ctx, r):
 @model('std::boxed::box_assume_init_into_vec_unsafe')
 def box_into_vec(M, ctx, b):
     v = b.cell.v if isinstance(b, BoxV) else b
+    # Box<MaybeUninit<[T; N]>> written through (*ptr).value.value.0 : MaybeUninit{uninit, value: ManuallyDrop{MaybeDangling(arr)}}
+    if isinstance(v, Tup) and len(v) == 2 and v[0] is None and isinstance(v[1], Tup) and len(v[1]) == 1 and isinstance(v[1][0], Tup) and len(v[1][0]) == 1:
+        v = v[1][0][0]
     if isinstance(v, Tup): return VecV(list(v))
     raise EncoderGap('box_assume_init_into_vec_unsafe of ' + type(v).__name__)
 
